@@ -73,19 +73,19 @@ func Props(c *Ctx) map[string]*Prop {
 			pf1Rule("no index, slice, type-assertion or division site reachable from a downstream entry point can panic", 100,
 				func(c *Ctx) (map[*core.Func]bool, map[*core.Func]bool) { return c.downstreamScope(), nil }),
 			rulePF2(), rulePF3("printer", "interp", "ast", "pattern"), rulePF4("interp"), rulePF5(), ruleYY1("interp"), ruleEF7(), ruleFLD1(), ruleFLD2(), ruleCC1("interp"),
-			ruleGR1("parser", "interp"), ruleGR3(), rulePU8(), ruleTB2(),
+			ruleGR1("parser", "interp"), ruleGR3(), rulePU8(), ruleTB2(), ruleSP(),
 		}})
 	add(&Prop{ID: "C12",
-		Explanation: "Decides the translation-table side of pattern matching: every regular-expression metacharacter (oracle: regexp.QuoteMeta) is escaped or given pattern meaning in each of compile's three contexts, wild cards run in dot-all mode, the alternatives sit in exactly one capture group, anchors follow the mode bits exactly, and no index/slice in Match/compile can panic on any pattern. Which prefix/suffix is selected (shortest/longest) and bracket-expression semantics are value-level and not decided.",
+		Explanation: "Decides the translation-table side of pattern matching: every regular-expression metacharacter (oracle: regexp.QuoteMeta) is escaped or given pattern meaning in each of compile's three contexts, wild cards run in dot-all mode, the alternatives sit in exactly one capture group, anchors follow the mode bits exactly, bracket mode is left only at the closing bracket (BRK1), and no index/slice in Match/compile can panic on any pattern. Which prefix/suffix is selected (shortest/longest) and bracket-expression semantics are value-level and not decided.",
 		Assumptions: []string{"RE2 syntax as implemented by package regexp is the oracle for what needs escaping"},
-		Rules: []Rule{ruleTB1(), ruleTB2(), ruleNG1("pattern"),
+		Rules: []Rule{ruleTB1(), ruleTB2(), ruleBRK1(), ruleNG1("pattern"),
 			pf1Rule("no index or slice in Match/compile can panic, whatever the pattern", 10,
 				func(c *Ctx) (map[*core.Func]bool, map[*core.Func]bool) { return c.scopeOf("pattern.Match"), nil }),
 		}})
 	add(&Prop{ID: "C16",
-		Explanation: "Decides structural necessary conditions of pathname expansion on every path of Glob: directory test before a separator is appended, existence test in the literal arm, sort before return, agreement of the dot-file literal with compile's output and of the three pattern-special character sets, no panic. Which names match is value-level and not decided.",
+		Explanation: "Decides structural necessary conditions of pathname expansion on every path of Glob: directory test before a separator is appended, existence test in the literal arm, sort before return, agreement of the dot-file literal with compile's output and of the three pattern-special character sets, a separator scan that steps over escaped characters (ESC1), no panic. Which names match is value-level and not decided.",
 		Assumptions: []string{"os.File.Readdirnames contract (non-empty slice when err == nil)"},
-		Rules: []Rule{ruleGL(), ruleTB2(), ruleTB4(), ruleNG1("pattern"),
+		Rules: []Rule{ruleGL(), ruleTB2(), ruleTB4(), ruleESC1(), ruleBRK1(), ruleNG1("pattern"),
 			pf1Rule("no index or slice reachable from Glob can panic", 10,
 				func(c *Ctx) (map[*core.Func]bool, map[*core.Func]bool) { return c.scopeOf("pattern.Glob"), nil }),
 		}})
@@ -108,7 +108,7 @@ func Props(c *Ctx) map[string]*Prop {
 	add(&Prop{ID: "C18",
 		Explanation: "Decides purity, determinism and error reporting of the printer structurally: its only AST writes are the hide/undo idiom and every hide is undone by a deferred closure on all paths (PU1); nothing reachable from Fprint is a source of nondeterminism (PU2); all output goes through one buffered writer whose sticky error is returned through print, Config.Fprint and Fprint (EF5); here-document frames are balanced (PU8); the positions it consults are counted in characters (BR1, TB5) and nothing reachable from Fprint can panic (PF1). That the output is a fix-point of print∘parse is a value-level property and is not decided.",
 		Assumptions: []string{"bufio.Writer's sticky-error contract"},
-		Rules: []Rule{rulePU1(), rulePU2(), ruleEF5(), rulePU8(), ruleNG1("printer"), ruleBR1(), ruleTB5(),
+		Rules: []Rule{rulePU1(), rulePU2(), ruleEF5(), rulePU8(), ruleNG1("printer"), ruleBR1(), ruleTB5(), ruleGR1("parser"), ruleGR3(),
 			pf1Rule("no index, slice or type-assertion site reachable from Fprint can panic", 20,
 				func(c *Ctx) (map[*core.Func]bool, map[*core.Func]bool) {
 					return c.scopeOf("printer.Fprint", "printer.(*Config).Fprint"), nil
@@ -118,7 +118,7 @@ func Props(c *Ctx) map[string]*Prop {
 		Rules: []Rule{rulePU3(), rulePU4(), rulePU6(), rulePU9(), ruleTB8(), ruleGR1("interp"), ruleNG1("interp")}})
 	add(&Prop{ID: "C05",
 		Explanation: "Decides only side conditions of the print/parse round trip: every semantic AST field and every Config field is read by the printer (TB6); pending here-document frames are balanced on every path under every combination of the style bits that guard them (PU8); the operator sets of scanner and expander/printer agree (TB10); nil-encoded fields are tested against nil (TB13); the positions the printer consults to space arithmetic tokens are counted in characters and End() adds the width of the stored token (BR1, TB5), and adjacency of two tokens is decided from line and column together (PS1); nothing reachable from Fprint can panic (PF1). Whether printed text re-parses to the same tree is not decidable structurally and is not claimed.",
-		Rules: []Rule{ruleTB6(), rulePU8(), ruleTB10(), ruleTB13(), rulePF3("printer"), ruleBR1(), ruleTB5(), rulePS1("printer", "parser"),
+		Rules: []Rule{ruleTB6(), rulePU8(), ruleTB10(), ruleTB13(), rulePF3("printer"), ruleBR1(), ruleTB5(), rulePS1("printer", "parser"), ruleGR1("parser"), ruleGR3(),
 			pf1Rule("no index, slice or type-assertion site reachable from Fprint can panic", 20,
 				func(c *Ctx) (map[*core.Func]bool, map[*core.Func]bool) {
 					return c.scopeOf("printer.Fprint", "printer.(*Config).Fprint"), nil
@@ -126,7 +126,7 @@ func Props(c *Ctx) map[string]*Prop {
 	add(&Prop{ID: "C13",
 		Explanation: "Decides the operator × state × nounset × special table of parameter expansion completely: for each of the 624 consistent valuations the outcome of every path of expandParam (value, word expanded, assignment, pattern removal, length, error kind) is extracted from the control-flow graph and compared with POSIX's table, including 'the word is expanded only when it is used' and 'assignment only under = / :=' (DT1); ${#p} counts runes (BR2); operator and special-parameter sets agree across packages (TB8, TB10, TB13); Set discipline (PU6/PU7); no panic (PF1). Field generation for $@ / $*, quoting of results and IFS joins are value-level and not decided.",
 		Assumptions: []string{"POSIX XCU 2.6.2 table frozen in the checker as oracle", "go.sh's documented Arith mode passes plain names through"},
-		Rules: []Rule{ruleDT1(), ruleBR2(), rulePU4(), ruleNG1("interp"), ruleTB8(), ruleTB10(), ruleTB13(), rulePU6(), ruleFLD1(), ruleFLD2(), rulePF5(), ruleEF7(), ruleYY1("interp"), rulePF2(), ruleTB2(),
+		Rules: []Rule{ruleDT1(), ruleBR2(), rulePU4(), ruleNG1("interp"), ruleTB8(), ruleTB10(), ruleTB13(), rulePU6(), ruleFLD1(), ruleFLD2(), rulePF5(), ruleEF7(), ruleYY1("interp"), rulePF2(), ruleTB2(), ruleSP(),
 			pf1Rule("no index/slice/assertion in the expansion functions can panic", 40,
 				func(c *Ctx) (map[*core.Func]bool, map[*core.Func]bool) { return c.scopeOf("interp.(*ExecEnv).Expand"), nil })}})
 	add(&Prop{ID: "C02",
